@@ -25,6 +25,10 @@ class World:
         self.cert_after = self.ca.issue(subj, T0 + 1, T0 + 100000, 'after')        # starts one second after
         self.cert_absent = self.ca.issue(subj, T0 - 100000, T0 + 100000, 'absent')  # not listed in the publications file
         self.pub_times = [T0 + 86400 * 15, T0 + 86400 * 45, T0 + 86400 * 75]
+        # for publications files the context downloads itself (they are PKI-verified by the library, with today's clock inside OpenSSL)
+        self.pf_signer = self.ca.issue('/C=EE/O=Guardtime AS/CN=pub.example/emailAddress=publications@guardtime.test', name='pfsigner')
+        self.ca_other = pki.CA(d, 'other-ca')
+        self.pf_foreign = self.ca_other.issue('/C=EE/O=Guardtime AS/CN=pub.example/emailAddress=publications@guardtime.test', name='pfforeign')
 
 
 WORLD = None
@@ -412,6 +416,90 @@ def worker(job, r):
     pool.check_exit(None, r, sess.ex)
 
 
+EMAIL_OID = '1.2.840.113549.1.9.1'
+
+
+def fetched_part(job, r):
+    """the publications file is not handed in by the caller but downloaded through the context (KSI_CTX_setPublicationUrl) and
+    PKI-verified by the library: when that verification fails the file is no anchor - on the first use and on every later use of
+    the same context (the context caches what it downloaded)."""
+    exe, env, work, seed, n, w = job
+    rng = random.Random(seed)
+    state = {}
+    srv = Extender(rng, w.cal)
+
+    def responder(sess, kind, info):
+        if kind == 'http':
+            if 'publications' in info.get('url', ''):
+                state['downloads'] = state.get('downloads', 0) + 1
+                return 'resp 200 0 %s -' % kexec.hx(state['pf'])
+            code, cc, body = srv.reply(info['body'])
+            return 'resp %d %d %s -' % (code, cc, kexec.hx(body))
+        return 'eof'
+    sess = net.Session(exe, env, work, responder)
+    c = sess.cmd
+    for i in range(n):
+        variant = rng.choice(['trusted', 'trusted', 'signed-by-foreign-ca', 'no-anchor', 'other-anchor', 'wrong-constraint', 'no-constraint', 'tampered-after-signing'])
+        kind = rng.choice(['auth:ok', 'auth:ok', 'cal', 'auth:absent'])
+        s = make_sig(rng, w, kind, work, T0)
+        srv.root = s.root
+        srv.behaviour = 'honest'
+        F = [(pt, w.cal.chain(T0, pt, s.root).root()) for pt in w.pub_times]
+        recs = [hdr()] + [cert_rec(x) for x in (w.cert_ok, w.cert_ok2)] + [pub_rec(t, h) for t, h in sorted(F)]
+        body = MAGIC + b''.join(x.enc() for x in recs)
+        signer = w.pf_foreign if variant == 'signed-by-foreign-ca' else w.pf_signer
+        pf = body + sig_rec(signer.pkcs7_detached(body, work)).enc()
+        if variant == 'tampered-after-signing':
+            # one bit of a publication reference-free area: the creation time inside the header record
+            k = len(MAGIC) + 12
+            pf = pf[:k] + bytes([pf[k] ^ 1]) + pf[k + 1:]
+        state['pf'] = pf
+        c('ctx 0')
+        c('clock %d' % 1700000000)
+        anchors = {'no-anchor': [], 'other-anchor': [w.ca_other.pem]}.get(variant, [w.ca.pem])
+        c('truststore 0 ' + ' '.join(anchors))
+        if variant != 'no-constraint':
+            c('constraints 0 %s=%s' % (EMAIL_OID, 'nobody@guardtime.test' if variant == 'wrong-constraint' else 'publications@guardtime.test'))
+        c('set_puburl 0 http://pub.example/publications.bin')
+        c('set_ext 0 ksi+http://ext.example/x anon anon')
+        q = c('sigparse 0 0 empty ' + s.enc().hex())
+        if q.rc != 0:
+            r.viol('parse-empty:honest-rejected', 'reference-built signature rejected rc=%#x' % q.rc, s.enc().hex())
+            c('ctxfree 0')
+            continue
+        trusted = variant == 'trusted'
+        seq = [rng.choice(['key', 'pubfile', 'general']) for _ in range(rng.choice([2, 3, 4]))]
+        for step, policy in enumerate(seq):
+            q = c('verify 0 0 %s ext=1' % policy)
+            res = RES.get(int(q.get('res', -1))) if q.get('res', 'none') != 'none' else 'NA'
+            err = q.get('err', '')
+            r.observe(('fetched', variant, kind, policy, step > 0, res))
+            r.count('fetched_file_%s_%s' % ('trusted' if trusted else 'untrusted', res))
+            replay = 'fetched publications file variant=%s signature=%s policies=%s step=%d' % (variant, kind, seq, step)
+            if not trusted:
+                if res != 'NA':
+                    r.viol('fetched-pubfile:%s:%s:%s:%s' % (variant, policy, 'first-use' if step == 0 else 'later-use-of-the-context', res),
+                           'the downloaded publications file fails its PKI verification (%s) but verification under policy %s answered %s/%s (step %d of %s on one context)' % (variant, policy, res, err, step, seq), replay)
+                    break
+            else:
+                exp = {'key': 'OK' if kind == 'auth:ok' else 'NA', 'pubfile': 'OK', 'general': 'OK'}[policy]
+                if res != exp:
+                    r.viol('fetched-pubfile:trusted:%s:%s:expected-%s:got-%s' % (policy, kind, exp, res), 'authentic downloaded publications file: policy %s on a %s signature answered %s/%s rc=%#x, expected %s' % (policy, kind, res, err, q.rc, exp), replay)
+                    break
+        c('sigfree 0')
+        c('ctxfree 0')
+    pool.check_exit(None, r, sess.ex)
+
+
+def dispatch(job, r):
+    if job[-1] == 'fetched':
+        global WORLD
+        WORLD = job[5]
+        fetched_part(job[:-1], r)
+    else:
+        worker(job, r)
+
+
 def run(ctx):
     exe = kexec.build(ctx)
     w = World(os.path.join(ctx.work, 'pki'))
@@ -420,11 +508,12 @@ def run(ctx):
                 'by certificates whose validity contains / ends 1 s before / starts 1 s after / equals the aggregation second, unknown certificate, bad or foreign signature value} x user publication '
                 '{absent, matching, hash differs, later, earlier} x publications file {absent, matching, hash differs, only earlier, empty} x extending allowed x extender behaviours %s x the five '
                 'anchored policies; the verdict class is compared with a reference that exhibits the binding; internally inconsistent mutants must never be OK. '
-                'distinct = (policy, signature kind, anchors, extender behaviour, verdict)' % EXT_BEHAVIOURS)
-    ctx.assumptions = ['openssl CLI test PKI; OpenSSL primitives trusted', 'simulated HTTP transport + reference extender/calendar', 'user supplied publications file (not downloaded): its own PKI verification is C18']
+                'fetched part: the context downloads the publications file itself {authentic, signed by a foreign CA, no / other anchor, wrong / no constraint, tampered after signing} and 2..4 verifications (key / publications-file / general policy) run on that one context: an unauthentic file is never an anchor, neither at first nor at later use. distinct = (policy, signature kind, anchors, extender behaviour, verdict)' % EXT_BEHAVIOURS)
+    ctx.assumptions = ['openssl CLI test PKI; OpenSSL primitives trusted', 'simulated HTTP transport + reference extender/calendar', 'publications file either supplied by the caller (not PKI-verified by the rules) or downloaded through the context and PKI-verified by the library (fetched part); structure and trust rules themselves are C18']
     env = ctx.env()
-    pool.run(ctx, worker, [(exe, env, ctx.work, ctx.seed * 1000 + i, n, w) for i in range(16)], workers=16)
+    pool.run(ctx, dispatch, [(exe, env, ctx.work, ctx.seed * 1000 + i, n, w) for i in range(16)] + [(exe, env, ctx.work, ctx.seed * 1000 + 500 + i, max(20, n // 8), w, 'fetched') for i in range(4)], workers=16)
     c = ctx.counters
     if not ctx.violations and not ctx.known_printed:
         for p in ('userpub', 'pubfile', 'key', 'calendar', 'general'):
+            ctx.require(c.get('fetched_file_trusted_OK', 0) >= 10 and c.get('fetched_file_untrusted_NA', 0) >= 30, 'downloaded publications files: trusted and untrusted observed')
             ctx.require(c.get('verdict_%s_OK' % p, 0) >= 5 and c.get('verdict_%s_FAIL' % p, 0) >= 5 and c.get('verdict_%s_NA' % p, 0) >= 5, 'OK, FAIL and NA observed under policy %s' % p)
